@@ -1,0 +1,10 @@
+//go:build verif
+
+package metrics
+
+/*@
+func (*Counter).Inc
+  props C19
+  modifies c.val
+  ensures counts-one: c.val == old(c.val) + 1
+@*/
